@@ -1,5 +1,6 @@
 """C16 — endpoint requests and responses survive the HTTP wire format unchanged."""
 import itertools
+import base64
 import json
 import urllib.parse
 
@@ -35,6 +36,9 @@ TOKEN_MODES = ["if_required", "always", "appservice", "none"]
 SCHEMES = ["None", "AccessToken", "AccessTokenOptional", "AppserviceToken", "AppserviceTokenOptional", "ServerSignatures"]
 
 
+PRESCRIBED_STATUS = {"synth.redirect": 302, "real.sso_login": 302, "synth.created": 201}
+
+
 def layers(tier):
     return ["rel:api", "dbg:api"] if tier == "thorough" else ["rel:api"]
 
@@ -44,7 +48,7 @@ def shards(tier, n):
 
 
 def floors(tier):
-    return {"synthetic_requests": 6000, "synthetic_responses": 1500, "real_requests": 3000, "real_responses": 500,
+    return {"synthetic_requests": 6000, "synthetic_responses": 1500, "real_requests": 3000, "real_responses": 500, "multipart_responses": 300,
             "path_selections": 32768 * 20, "auth_header_cases": 24, "xmatrix": 300, "_distinct_nontrivial": 20000}
 
 
@@ -305,7 +309,8 @@ def shard(ctx):
         # synthetic responses
         cmds = []
         for _ in range(n // 4):
-            ep = rng.choice(["synth.all_kinds", "synth.newtype_body", "synth.raw_body", "synth.query_all"])
+            ep = rng.choice(["synth.all_kinds", "synth.newtype_body", "synth.raw_body", "synth.query_all",
+                             "synth.redirect", "synth.created", "real.sso_login"])
             if ep == "synth.all_kinds":
                 a = {"content_type": header_safe(rng), "value": tricky(rng)}
                 if rng.random() < 0.5:
@@ -322,6 +327,13 @@ def shard(ctx):
                     a["content_type"] = header_safe(rng)
                 if rng.random() < 0.5:
                     a["disposition"] = rng.choice(["inline", "attachment; filename=\"a b.txt\""])
+            elif ep in ("synth.redirect", "real.sso_login"):
+                # endpoints whose prescribed success status is 302
+                a = {"location": rng.choice(["https://sso.example/login?x=1", "/relative", "matrix:u/a:b", ""])}
+                if rng.random() < 0.5:
+                    a["cookie"] = rng.choice(["a=b", "session=xyz; Path=/; HttpOnly", ""])
+            elif ep == "synth.created":
+                a = {"value": tricky(rng)}
             else:
                 a = {}
             cmds.append({"op": "synth_response", "endpoint": ep, "args": a})
@@ -337,7 +349,39 @@ def shard(ctx):
                 rep.violation("wire_round_trip_fails", key, {"reply": o, "cmd": cmd}, cmd)
             elif o["value"] != o["value2"] or o["h1"] != o["h2"]:
                 rep.violation("response_changed_on_the_wire", key, {"reply": o}, cmd)
+            elif o["h1"]["status"] != PRESCRIBED_STATUS.get(cmd["endpoint"], 200):
+                rep.violation("response_status_differs_from_metadata", key, {"reply": o}, cmd)
             rep.case(h64("resp", json.dumps(cmd["args"], ensure_ascii=False)))
+
+        # federation media responses: multipart/mixed with a generated boundary
+        cmds = []
+        for _ in range(n // 10):
+            if rng.random() < 0.25:
+                cmds.append({"op": "multipart_response", "location": rng.choice(["https://cdn.example/x", "mxc://a/b", "x"])})
+                continue
+            raw = bytes(rng.getrandbits(8) for _ in range(rng.randint(0, 40)))
+            if rng.random() < 0.5:
+                raw = rng.choice([b"", b"\r\n", b"\r\n--", b"--", b"\r\n\r\n", b"\n--abc\r\n", b"Content-Type: x\r\n\r\n"]) + raw + \
+                    rng.choice([b"", b"\r\n", b"\r\n--", b"--\r\n"])
+            c = {"op": "multipart_response", "file_b64": base64.b64encode(raw).decode()}
+            if rng.random() < 0.7:
+                c["file_content_type"] = rng.choice(["text/plain", "image/png", "application/octet-stream; charset=x"])
+            if rng.random() < 0.6:
+                c["filename"] = rng.choice(["a.txt", "my file.txt", "é.png", "a\"b.txt", "x;y"])
+            elif rng.random() < 0.5:
+                c["no_disposition"] = True
+            cmds.append(c)
+        for cmd, r in zip(cmds, w.call_many(cmds)):
+            rep.count("multipart_responses")
+            if handle_crash(rep, r, cmd, context="multipart"):
+                continue
+            o = r["ok"]
+            rep.judged()
+            want = "location:" + cmd["location"] if "location" in cmd else "file:%s:" % cmd["file_b64"]
+            if "encode_err" in o or not o.get("decoded", "").startswith(want) or \
+                    ("file_content_type" in cmd and ("Some(%s)" % json.dumps(cmd["file_content_type"])) not in o["decoded"]):
+                rep.violation("multipart_response_changed_on_the_wire", "federation.media", {"reply": {k: str(v)[:600] for k, v in o.items()}, "cmd": cmd}, cmd)
+            rep.case(h64("mp", json.dumps(cmd, sort_keys=True)))
 
         # ---------- (b) real endpoints, from HTTP messages ----------
         cmds, metas = [], []
